@@ -19,17 +19,17 @@ Fixpoint caseInsensitiveCompare (a b : bytes) : bool :=
   | _, _ => false
   end.
 
-(* ---- stripSpace: drops leading and trailing ' ' (only 0x20) ---- *)
+(* ---- stripSpace: drops leading and trailing ' ' and '\t' ---- *)
 Fixpoint strip_lead (b : bytes) : bytes :=
   match b with
-  | c :: r => if c =? 32 then strip_lead r else b
+  | c :: r => if (c =? 32) || (c =? 9) then strip_lead r else b
   | [] => []
   end.
 Fixpoint strip_trail (b : bytes) : bytes :=
   match b with
   | [] => []
   | c :: r => match strip_trail r with
-              | [] => if c =? 32 then [] else [c]
+              | [] => if (c =? 32) || (c =? 9) then [] else [c]
               | r' => c :: r'
               end
   end.
